@@ -177,6 +177,31 @@ def run(case):
             for resv in by_status.values():
                 if len(list(resv)) > 2:
                     problems.append('sample store holds %d entries after resize(2)' % len(list(resv)))
+        # the reset endpoint: returns the totals so far, counting restarts from zero -- and the request that
+        # triggers the reset reached a route too, so it is counted (in the new period)
+        from clastic import Application, Response
+        from clastic.middleware.stats import StatsMiddleware, create_stats_app
+        from werkzeug.test import Client
+        mw2 = StatsMiddleware()
+        app2 = Application([('/ok', lambda: Response('ok')), ('/stats', create_stats_app())], middlewares=[mw2])
+        cl2 = Client(app2, Response)
+        for _ in range(3):
+            cl2.get('/ok')
+        r = cl2.post('/stats/reset', headers={'Accept': 'application/json'})
+        import json as _json
+        try:
+            before = _json.loads(r.get_data(as_text=True))['route_stats']
+        except Exception as e:
+            before = None
+            problems.append('reset endpoint answered %s (%r)' % (r.status_code, e))
+        if before is not None and before.get('/ok', {}).get('200', {}).get('count') != 3:
+            problems.append('reset returned %r for /ok, 3 requests were served' % (before.get('/ok'),))
+        cl2.get('/ok')
+        rep = get_stats_dict(app2)['route_stats']
+        got2 = dict((pat, dict((st, d.get('count')) for st, d in by.items())) for pat, by in rep.items())
+        want2 = {'/ok': {'200': 1}, '/stats/reset': {'200': 1}}
+        if got2 != want2:
+            problems.append('after a reset and one more request the report shows %r, expected %r' % (got2, want2))
     return {'fails': bool(problems), 'why': '; '.join(problems[:4])}
 
 
